@@ -2,9 +2,9 @@
 # Cost of one case ~ 0.75 us * m (long double oracle + 2 Horner evaluations + 2 library calls + table hashes):
 # 0.2 ms at m=256, 3 ms at m=4096, 50 ms at m=65536.  Counts are frozen case counts (never time budgets).
 
-# cases per (sub, k) in the quick tier: ~2-10 core-seconds per job
+# cases per (sub, k) in the quick tier: ~2-15 core-seconds per job
 _COUNT = {0: 5000, 1: 10000, 2: 10000, 3: 10000, 4: 10000, 5: 10000, 6: 10000, 7: 10000, 8: 10000,
-          9: 10000, 10: 8000, 11: 5000, 12: 3000, 13: 1600, 14: 800, 15: 400, 16: 200}
+          9: 10000, 10: 10000, 11: 7500, 12: 4500, 13: 2400, 14: 1200, 15: 600, 16: 300}
 
 _IMPLS = ["%s_%s_%s" % (lay, d, v) for lay in ("reim", "cplx") for d in ("fft", "ifft") for v in ("ref", "avx2_fma")]
 _LEAVES = (["reim_%s%d_ref" % (d, n) for d in ("fft", "ifft") for n in (2, 4, 8, 16)]
